@@ -68,6 +68,12 @@ CHECKS.update({
    note='Honest note: alias topologies are enumerated; the solver decides the operand dimension only. to_dataframe(use_aliases) / PREFERRED_NAMES (pandas) outside the claim.'),
 })
 
+CHECKS.update({
+ 'C09': dict(cat='model_checking', ref='4/C09', tech='one inductive step per public container operation executed on abstract arrays whose dimensions are z3 integers (symx.absnp, validated against NumPy on a grid each run); z3 decides the shape invariant / unchanged-on-raise per path; replay on real NumPy',
+   text='Instead of enumerating histories, one inductive step is decided: from any state satisfying the invariant (span length 0..3, 4 thorough; any dtypes) each operation of the alphabet (add_variable, attribute/item/label/label-slice assignment, replace_values, values setter, add_attribute, strict toggle, unknown/duplicate names) with an operand whose dimensions d0, d1 are ALL non-negative integers either re-establishes rank 1, length len(span) and the creation dtype for every series (z3 query per path) with values = k x L stack and size = k*L, or raises leaving every series object untouched; unambiguous misfits must raise.',
+   note='Trusted: symx.absnp shape/cast/broadcast rules (2 560-case grid comparison with real NumPy 2.5 on every run), stand-in installed for containers.np and interfaces.np. The history quantifier is discharged by induction over the invariant. BaseLinker uses the same container class.'),
+})
+
 NOT_APPLICABLE = [
  ('C11', 'Independence of copies is a statement about object identity in the CPython heap; there is no input value to make symbolic, so a solver has nothing to decide (pointer-rich heaps are a weak target of the technique).'),
  ('C13', "Quantifies over strings only; everything it depends on sits behind CPython's re engine (look-ahead, \\b, lazy quantifiers, alternative priority), str.format and exec, none of which can be executed symbolically here (z3 regex theory lacks them; CrossHair's regex model is unsound on term_re and times out on split_equations)."),
